@@ -5,13 +5,14 @@
 import XC.Proofs.C03_Hist
 namespace XC.C03
 
-theorem mkCipher_inv (k : KeyW) (n : NonceW) : Inv (mkCipher 1 k n) := by
-  refine ⟨by simp [mkCipher, zeros], by simp [mkCipher], by simp [mkCipher], ?_, ?_, ?_⟩
+theorem mkCipher_inv (m : Nat) (hm : 0 < m) (k : KeyW) (n : NonceW) : Inv m (mkCipher m k n) := by
+  refine ⟨hm, by simp [mkCipher, zeros], by simp only [mkCipher]; omega, by simp [mkCipher], ?_, ?_, ?_, ?_⟩
   · intro h; simp [mkCipher] at h
   · simp [mkCipher, zeros, ksRange]
   · intro h; simp [mkCipher] at h
+  · intro h; simp [mkCipher] at h
 
-theorem mkCipher_pos (k : KeyW) (n : NonceW) : pos (mkCipher 1 k n) = 0 := by
+theorem mkCipher_pos (m : Nat) (k : KeyW) (n : NonceW) : pos (mkCipher m k n) = 0 := by
   simp [pos, tc, mkCipher]
 
 /-- the Go HChaCha20 (ten column/diagonal iterations on 16 locals) is the specification's -/
@@ -27,11 +28,11 @@ theorem hChaCha20Go_eq (key nonce : Bytes) :
 
 /-- NewUnauthenticatedCipher: errors exactly on a wrong key / nonce size; otherwise the state is at
     position 0 of the keystream of (key, nonce) resp. (HChaCha20 sub-key, 0⁴ ‖ nonce[16:24]) -/
-theorem newCipher_spec (key nonce : Bytes) :
-    newCipher 1 key nonce =
-      if key.length = 32 ∧ nonce.length = 12 then some (mkCipher 1 (keyWords key) (nonceWords nonce))
+theorem newCipher_spec (m : Nat) (key nonce : Bytes) :
+    newCipher m key nonce =
+      if key.length = 32 ∧ nonce.length = 12 then some (mkCipher m (keyWords key) (nonceWords nonce))
       else if key.length = 32 ∧ nonce.length = 24 then
-        some (mkCipher 1 (keyWords (xkey key nonce)) (nonceWords (xnonce nonce)))
+        some (mkCipher m (keyWords (xkey key nonce)) (nonceWords (xnonce nonce)))
       else none := by
   unfold newCipher
   by_cases hk : key.length = 32
